@@ -1,0 +1,17 @@
+//go:build verif
+
+package core
+
+// Add-only exports for the verification harness (/verif, property C16): drive the ChainIndexer's
+// notification entry point directly and read its section bookkeeping.
+
+// VerifNewHead is newHead: what the event loop calls for a new chain head (reorg=false) or for the
+// common ancestor of a reorg (reorg=true).
+func (c *ChainIndexer) VerifNewHead(head uint64, reorg bool) { c.newHead(head, reorg) }
+
+// VerifSections returns knownSections and storedSections.
+func (c *ChainIndexer) VerifSections() (known, stored uint64) {
+	c.lock.Lock()
+	defer c.lock.Unlock()
+	return c.knownSections, c.storedSections
+}
